@@ -14,6 +14,7 @@ A-PY (variable trees are dicts: `VarsWF`).
 import Flax.Proofs.Lift
 import Flax.Proofs.LiftWhile
 import Flax.Proofs.LiftCounters
+import Flax.Proofs.ModScopes
 
 namespace Flax.C05
 open Flax.Filter Flax.Lift
@@ -876,6 +877,113 @@ example : Extends ⟨[("dropout", 1)], [("child", 0)], [[("dropout", 1)]]⟩
       · simp [alookup, e]
       · simp [CHeap.obj, alookup, e] at hs
     · cases hk
+
+/-! ## several scopes: `get_module_scopes` / `set_module_scopes`, `_dedup_scopes` / `_dup_scopes` -/
+
+section modscopes
+open Flax.ModScopes
+
+/-- **set_get_module_scopes_id.** For every module tree — any declaration order of the dataclass fields, any nesting of
+dicts / lists / tuples, unbound modules, Variables, sub-modules shared between several attributes (memoized by id), any
+depth — and every replacement `ρ` of outer scopes by inner scopes: handing `set_module_scopes` the scopes that
+`get_module_scopes` collected (each replaced by its inner scope) gives every bound sub-module and every Variable the
+inner scope **of its own** scope, in the same order, and `assert len(scopes) == idx` holds.  (`ord` = the order in
+which both functions visit a module's fields: sorted names in the code, because `attrs` is a dict.) -/
+theorem set_get_module_scopes_id (ord : List (String × Node) → List (String × Node)) (m : Node) (ρ : Nat → Nat) :
+    setAssign ord m ((getOwners ord m).map (fun o => ρ o.scope)) =
+      ((getOwners ord m).map (fun o => (o, some (ρ o.scope))), true) :=
+  setAssign_getOwners ord m ρ
+
+/-- flattening a dict visits its entries in sorted key order, whatever the insertion (declaration) order, and loses
+or duplicates none -/
+theorem dict_flatten_order (l : List (String × Node)) :
+    (sortKeys l).Pairwise (fun a b => a.1 ≤ b.1) ∧ (sortKeys l).Perm l :=
+  ⟨sortKeys_sorted l, sortKeys_perm l⟩
+
+private theorem aux_leaf_fold : ∀ (l : List (String × Node)) (f : Nat) (g : GSt),
+    (∀ kv, kv ∈ l → ∃ i s, kv.2 = Node.mod i (some s) []) →
+    ∀ (ids : List (Nat × Nat)), l.map (·.2) = ids.map (fun p => Node.mod p.1 (some p.2) []) →
+    (ids.map (·.1)).Nodup → (∀ p, p ∈ ids → p.1 ∉ g.seen) →
+    ((l.map (·.2)).foldl (fun st x => getNode sortKeys (f + 1) x st) g).out = g.out ++ ids.map (fun p => Owner.m p.1 p.2) := by
+  intro l
+  induction l with
+  | nil => intro f g _ ids hi _ _; cases ids <;> simp_all
+  | cons kv r ih =>
+    intro f g hl ids hi hn hs
+    cases ids with
+    | nil => simp at hi
+    | cons p ps =>
+      simp only [List.map_cons, List.cons.injEq] at hi
+      simp only [List.map_cons, List.nodup_cons] at hn
+      simp only [List.map_cons, List.foldl_cons, hi.1]
+      have hp : p.1 ∉ g.seen := hs p List.mem_cons_self
+      have hstep : getNode sortKeys (f + 1) (Node.mod p.1 (some p.2) []) g =
+          { seen := p.1 :: g.seen, out := g.out ++ [Owner.m p.1 p.2] } := by
+        simp [getNode, hp, sortKeys]
+      rw [hstep]
+      have := ih f { seen := p.1 :: g.seen, out := g.out ++ [Owner.m p.1 p.2] }
+        (fun kv hkv => hl kv (List.mem_cons_of_mem _ hkv)) ps hi.2 hn.2
+        (by
+          intro q hq
+          simp only [List.mem_cons, not_or]
+          refine ⟨?_, hs q (List.mem_cons_of_mem _ hq)⟩
+          intro e
+          exact hn.1 (List.mem_map.mpr ⟨q, hq, e⟩))
+      rw [this]
+      simp
+
+/-- **get_module_scopes_order_spec.** For a module whose attributes are (distinct) bound sub-modules: the scopes are
+collected in the order of the **sorted attribute names** — not the declaration order — each sub-module before its
+parent, the module's own scope last. -/
+theorem get_module_scopes_order_spec (id sc : Nat) (fields : List (String × Node)) (ids : List (Nat × Nat))
+    (hf : (sortKeys fields).map (·.2) = ids.map (fun p => Node.mod p.1 (some p.2) []))
+    (hn : (ids.map (·.1)).Nodup) :
+    getScopes sortKeys (Node.mod id (some sc) fields) = ids.map (·.2) ++ [sc] := by
+  have hl : ∀ kv, kv ∈ sortKeys fields → ∃ i s, kv.2 = Node.mod i (some s) [] := by
+    intro kv hkv
+    have : kv.2 ∈ (sortKeys fields).map (·.2) := List.mem_map.mpr ⟨kv, hkv, rfl⟩
+    rw [hf] at this
+    obtain ⟨p, _, hp⟩ := List.mem_map.mp this
+    exact ⟨p.1, p.2, hp.symm⟩
+  have hfold := aux_leaf_fold (sortKeys fields) (Node.depth.depthFields fields) ⟨[], []⟩ hl ids hf hn (by intro p _; simp)
+  simp only [getScopes, getOwners, Node.depth, Nat.add_comm 1, getNode, List.not_mem_nil, ↓reduceIte, hfold]
+  simp [Owner.scope, Function.comp_def]
+
+/-- seeded changes C05_e / C07_f: if `get_module_scopes` visits the fields in declaration order while
+`set_module_scopes` consumes in sorted order, a module declaring `scale` before `bias` binds each sub-module to its
+sibling's scope (the count assert still passes) -/
+theorem decl_order_variant_swaps_siblings :
+    let m := Node.mod 0 (some 100) [("scale", Node.mod 1 (some 10) []), ("bias", Node.mod 2 (some 20) [])]
+    getScopes id m = [10, 20, 100] ∧ getScopes sortKeys m = [20, 10, 100] ∧
+    setAssign sortKeys m (getScopes id m) =
+      ([(Owner.m 2 20, some 10), (Owner.m 1 10, some 20), (Owner.m 0 100, some 100)], true) := by
+  decide
+
+/-- **dup_dedup_id.** `_dedup_scopes` reduces a scope list (duplicates, a scope together with its descendants, any
+order) to roots and `(root, path)` entries, one entry per listed scope in order, and `_dup_scopes` pushes the path
+names back onto the root: with the roots mapped to themselves the original list comes back, and with the roots
+replaced by inner root scopes `ρ` every listed scope becomes the descendant of `ρ root` with the same relative path. -/
+theorem dup_dedup_id (scopes : List ModScopes.Path) (ρ : ModScopes.Path → ModScopes.Path) :
+    dupScopes id (dedupScopes scopes).2 = scopes ∧
+    dupScopes ρ (dedupScopes scopes).2 = (dedupScopes scopes).2.map (fun rp => ρ rp.1 ++ rp.2) ∧
+    (dedupScopes scopes).2.length = scopes.length := by
+  have h := dedupLoop_recon scopes scopes.eraseDups []
+  refine ⟨?_, rfl, ?_⟩
+  · simpa [dupScopes, dedupScopes] using h
+  · have := congrArg List.length h
+    simpa [dedupScopes] using this
+
+-- a scope listed twice and a parent listed together with its child and grandchild: one root, paths kept
+example : dedupScopes [["a", "b"], ["a"], ["a", "b"], ["a", "b", "c"], ["z"]] =
+    ([["a"], ["z"]], [(["a"], ["b"]), (["a"], []), (["a"], ["b"]), (["a"], ["b", "c"]), (["z"], [])]) := by decide
+
+-- a shared sub-module (same id under two attributes) is collected once; nested containers are traversed in
+-- flattening order
+example : getScopes sortKeys (Node.mod 0 (some 9) [("z", Node.mod 1 (some 5) []),
+    ("a", Node.dict [("y", Node.mod 1 (some 5) []), ("x", Node.seq [Node.mod 2 (some 7) [], Node.var (some 3)])])]) =
+    [7, 3, 5, 9] := by decide
+
+end modscopes
 
 /-! ## non-vacuity: concrete instances of the hypotheses -/
 
